@@ -345,6 +345,153 @@ def main():
                 expect(I(object(), "alt"), "alt", which)
         finally:
             hooks[:] = saved
+    elif which == "destructor_reenters_during_changed":
+        # The lookup caches hold the LAST reference to a registered value; re-registering makes the
+        # mutator's changed() drop the caches, the value's destructor runs in the middle of that and
+        # looks the registry up again.  The mutation is complete by then: the destructor must see the
+        # new value, and nothing may crash.  One variant per cache (_cache, _mcache, _scache).
+        from zope.interface.adapter import AdapterRegistry
+        rounds = max(n, 50)
+        seen = []
+
+        class Value:
+            def __init__(self, reg, tag, how):
+                self.reg, self.tag, self.how = reg, tag, how
+
+            def __call__(self, ob):
+                return (self.tag, ob)
+
+            def __del__(self):
+                state["n"] += 1
+                reg = self.reg
+                if self.how == "lookup":
+                    got = reg.lookup((I,), P, "")
+                    seen.append(getattr(got, "tag", got))
+                elif self.how == "lookupAll":
+                    seen.append(tuple((k, getattr(v, "tag", v)) for k, v in reg.lookupAll((I,), P)))
+                else:
+                    seen.append(tuple(getattr(v, "tag", v) for v in reg.subscriptions((I,), P)))
+                junk()
+
+        for how in ("lookup", "lookupAll", "subscriptions"):
+            reg = AdapterRegistry()
+            for rnd in range(rounds):
+                del seen[:]
+                if how == "subscriptions":
+                    old = Value(reg, "old", how)
+                    reg.subscribe([I], P, old)
+                    reg.subscriptions((I,), P)          # _scache now refers to old
+                    reg.unsubscribe([I], P, old)        # (changed() inside: old is still alive here)
+                    reg.subscriptions((I,), P)
+                    reg.subscribe([I], P, old)
+                    reg.subscriptions((I,), P)
+                    new = Value(reg, "new", how)
+                    del seen[:]
+                    del old
+                    # the registry and the cache share the references; replacing the subscription list
+                    # leaves the cache as the last owner
+                    reg.unsubscribe([I], P)             # removes every subscriber: 'old' dies inside changed()
+                    want = [()]
+                    reg.subscribe([I], P, new)
+                    del new
+                    reg.unsubscribe([I], P)
+                else:
+                    reg.register([I], P, "", Value(reg, "old", how))
+                    if how == "lookup":
+                        reg.lookup((I,), P, "")
+                    else:
+                        reg.lookupAll((I,), P)
+                    new = Value(reg, "new", how)
+                    del seen[:]
+                    reg.register([I], P, "", new)       # 'old' dies inside changed()
+                    want = ["new"] if how == "lookup" else [(("", "new"),)]
+                    after = reg.lookup((I,), P, "")
+                    if after is not new:
+                        expect(getattr(after, "tag", after), "new", "%s: lookup after re-registration" % how)
+                    reg.unregister([I], P, "")
+                    del new, after
+                if seen[:1] != want and len(failures) < 5:
+                    failures.append("%s, round %d: the destructor running inside changed() saw %r, expected %r"
+                                    % (how, rnd, seen[:1], want))
+                gc.collect()
+    elif which == "mutation_from_key_hash_during_walk":
+        # A key's __hash__ (an InterfaceClass subclass with a Python __hash__), called by the Python
+        # walkers _lookup / _lookupAll / _subscriptions while they iterate the extendors of the looked-up
+        # interface, mutates the registry (what a mutator thread does at that very moment).  The
+        # interrupted call must answer as before or as after the mutation.
+        from zope.interface.adapter import AdapterRegistry
+        from zope.interface.interface import InterfaceClass
+        hook = [None]
+
+        class Hooked(InterfaceClass):
+            def __hash__(self):
+                h = hook[0]
+                if h is not None and sys._getframe(1).f_code.co_name in ("_lookup", "_lookupAll", "_subscriptions"):
+                    hook[0] = None
+                    state["n"] += 1
+                    h()
+                return InterfaceClass.__hash__(self)
+
+        def canon(how, x):
+            if how == "lookup":
+                return x
+            if how == "lookupAll":
+                return tuple(sorted(x))
+            return tuple(x)
+
+        for how in ("lookup", "lookupAll", "subscriptions"):
+            for hooked_pos in range(3):
+                for victim in range(4):
+                    for nreq in (1, 2):
+                        IPs = [(Hooked if j == hooked_pos else InterfaceClass)("IP%d" % j, (P,), {"__module__": __name__})
+                               for j in range(3)]
+                        extra = InterfaceClass("IPx", (P,), {"__module__": __name__})
+                        reg = AdapterRegistry()
+                        req = [I] * nreq
+                        for j, ip in enumerate(IPs):
+                            if how == "subscriptions":
+                                reg.subscribe(req, ip, "S%d" % j)
+                            else:
+                                reg.register(req, ip, "", "A%d" % j)
+                                reg.register(req, ip, "n%d" % j, "N%d" % j)
+
+                        def call():
+                            if how == "lookup":
+                                return reg.lookup(tuple(req), P, "")
+                            if how == "lookupAll":
+                                return reg.lookupAll(tuple(req), P)
+                            return reg.subscriptions(tuple(req), P)
+
+                        def mutate():
+                            if victim == 3:
+                                if how == "subscriptions":
+                                    reg.subscribe(req, extra, "Sx")
+                                else:
+                                    reg.register(req, extra, "", "Ax")
+                            elif how == "subscriptions":
+                                reg.unsubscribe(req, IPs[victim], "S%d" % victim)
+                            else:
+                                reg.unregister(req, IPs[victim], "")
+                                reg.unregister(req, IPs[victim], "n%d" % victim)
+
+                        before = canon(how, call())
+                        reg.changed(None)
+                        hook[0] = mutate
+                        try:
+                            during = canon(how, call())
+                        except Exception as e:   # noqa
+                            during = "%s: %s" % (type(e).__name__, e)
+                        fired = hook[0] is None
+                        hook[0] = None
+                        reg.changed(None)
+                        after = canon(how, call())
+                        if fired and during != before and during != after and len(failures) < 6:
+                            failures.append("%s(%d required), __hash__ of extendor %d %s: answered %r; before %r, after %r"
+                                            % (how, nreq, hooked_pos,
+                                               "registers another extendor" if victim == 3 else "removes extendor %d" % victim,
+                                               during, before, after))
+        if not state["n"]:
+            failures.append("no __hash__ hook fired inside a walker")
     else:
         failures.append("unknown scenario " + which)
     _boot.write_result({"summary": "survived, %d callbacks fired" % state["n"], "failures": failures})
